@@ -543,7 +543,7 @@ def standard_replay(ctx, path, trace, input_keys, replay_cmd="world-replay", is_
 
 
 WORLD_INPUT_KEYS = {"e", "t", "tn", "cfg", "align", "obs", "fresh", "fam", "op", "res", "rules", "id", "n", "in", "args",
-                    "att", "err", "v"}
+                    "att", "err", "v", "kind"}
 
 
 def match_known(ctx, rej):
